@@ -908,6 +908,23 @@ def run(ctx):
             else:
                 r.bad(key, "%s decides whether the directory is a git repository under another condition (%s; else-value `%s`)"
                       % (f.name, detail, els[:30]), fn=f, construct="has_git")
+    with ctx.rule("C05.TYPES", "file-type selection applies to files only: a directory is never decided by it", floor=1, kind="GUARD") as r:
+        tm = facts.fn("ignore::types::Types::matched")
+        ebt = ExprBuilder(tm)
+        # is_dir is the third parameter (self, path, is_dir)
+        dsw = cond_switches(tm, lambda e: isinstance(strip(e), X) and strip(e).k == "arg" and strip(e)[2] == "is_dir", ebt)
+        sm = [c for c in tm.calls() if c.path.endswith("GlobSet::matches_into") or c.path.endswith("pathutil::file_name")]
+        if dsw and sm:
+            s1 = Sccp(tm).run([(dsw[0][1][1], {})])
+            v1 = {x for v in s1.ret_values.values() for x in value_set(v)}
+            if v1 == {V("None", None)} and not guarded(tm, [c.bb for c in sm], dsw, False):
+                r.ok("types|dir", "is_dir ⇒ Match::None before any glob is consulted", fn=tm)
+            else:
+                r.bad("types|dir", "Types::matched lets the file-type globs decide about a directory (%s): with -t TYPE every "
+                      "directory that does not itself match is pruned and nothing below it is searched" % sorted(map(str, v1)), fn=tm,
+                      construct="types-dir")
+        else:
+            r.bad("types|dir", "Types::matched no longer answers Match::None for directories", fn=tm, construct="types-dir")
     with ctx.rule("C05.NAME", "an entry has no file name only when its path is empty or its final component was examined", floor=3,
                   kind="GUARD") as r:
         from . import c12
